@@ -16,7 +16,9 @@ RULE = ("differential against recorded observations of the reference (pinned) ve
         "<= N are removed (all subsets in thorough, sampled incl. a full-N one in quick) and fix must reproduce the stored bytes, "
         "time-stamps and links, with a clean check afterwards; (b) the current tree's memhash (murmur3, spooky2) for every length "
         "0..1100 x 8 seeds, crc32c table and SSE4.2 variants for every length 0..1100, and raid_gen parity of deterministic stripes "
-        "are compared with stored vectors and with the frozen reference sources. distinct = (array, subset) + vector sets.")
+        "are compared with stored vectors and with the frozen reference sources; (c) 60 content files WRITTEN by the reference version for "
+        "constructed states with boundary values (64-bit time-stamps and inodes, varint boundaries, every record kind, format 2 and 3) must "
+        "load, print what the reference printed in list -l / status -G -l, and be written back bit for bit. distinct = (array, subset) + vector sets.")
 
 
 def truth_of(a):
@@ -193,7 +195,68 @@ def run_vectors(case):
     return res
 
 
+def run_contents(case):
+    """Content files written by the reference version for constructed states with boundary values: the tree under test
+    must load each, print what the reference printed, and write it back bit for bit (recorded parity paths aside)."""
+    from .. import refcnt
+    from .. import content as cnt
+    _k, seed, shard, nshards, variant = case
+    res = dict(key="contents-%d-%s" % (shard, variant), violations=[], counters={}, nontrivial=False)
+    vecs = [v for i, v in enumerate(refcnt.load()) if i % nshards == shard]
+    n = 0
+    for v in vecs:
+        import base64
+        a = A.Array(A.scratch_root("c16c"), **v["acfg"])
+        try:
+            data = base64.b64decode(v["content"])
+            for p in a.cpaths():
+                with open(p, "wb") as f:
+                    f.write(data)
+            rep = {"case": list(case), "vector": v["idx"], "cfg": v["acfg"]}
+            label = "reference-written content #%d (%d bytes)" % (v["idx"], len(data))
+            # list/status through the variant under test
+            from . import c10
+            r1, files, links = c10.list_dump(a, variant)
+            r2, blocks, summ = c10.status_dump(a, variant)
+            for s_ in r1.san + r2.san:
+                res["violations"].append(("sanitizer:" + A.san_key(s_), "%s: %s" % (label, s_[:2000]), rep))
+            if r1.rc != 0 or r2.rc != 0:
+                res["violations"].append(("reference-content-does-not-load", "%s: list rc=%s status rc=%s %s" %
+                                          (label, r1.rc, r2.rc, (r1.err + r2.err)[-300:].decode("latin-1")), rep))
+                continue
+            got = (r1.rc, r2.rc,
+                   [[base64.b64encode(x).decode() if isinstance(x, bytes) else x for x in f] for f in files],
+                   [[base64.b64encode(x).decode() for x in l] for l in links],
+                   {str(k): list(v_) for k, v_ in sorted(blocks.items())}, summ)
+            want = tuple(v["dumps"])
+            if json.loads(json.dumps(got)) != json.loads(json.dumps(want)):
+                which = [nm for nm, g, w in zip(("list-rc", "status-rc", "files", "links", "blocks", "summary"), json.loads(json.dumps(got)), want) if g != w]
+                res["violations"].append(("reference-content-read-differently", "%s: %s differ from what the reference version printed" % (label, which), rep))
+                continue
+            r = a.cmd("test-rewrite", variant=variant, shim={"time": v["now"] + 100, "log": False})
+            if r.rc != 0:
+                res["violations"].append(("reference-content-rewrite-fails", "%s: test-rewrite rc=%s" % (label, r.rc), rep))
+                continue
+            now = open(a.cpaths()[0], "rb").read()
+            try:
+                same = refcnt.normalised(now) == refcnt.normalised(data)
+            except cnt.DecodeError as ex:
+                same = False
+            if not same:
+                res["violations"].append(("content-encoding-not-stable", "%s: the tree under test writes this state with other bytes (%d -> %d bytes)" %
+                                          (label, len(data), len(now)), rep))
+            n += 1
+        finally:
+            a.cleanup()
+    res["counters"]["reference_contents_loaded"] = n
+    res["nontrivial"] = n > 0
+    res["n"] = n
+    return res
+
+
 def dispatch(case):
+    if case[0] == "contents":
+        return run_contents(case)
     return run_array(case) if case[0] == "array" else run_vectors(case)
 
 
@@ -205,6 +268,7 @@ def main(tier, seed, replay, jobs, scale):
     else:
         cases = [("array", seed, n, tier) for n in names]
         cases += [("vectors", seed, v, tier) for v in (["plain", "asan-c"] if tier == "quick" else ["plain", "asan-c", "asan", "plain-c"])]
+        cases += [("contents", seed, sh, 4, v) for sh in range(4) for v in (["plain"] if tier == "quick" else ["plain", "asan"])]
     results = list(par.run_cases(dispatch, cases, jobs))
     par.absorb(run, results)
     run.evaluations = sum(r.get("n", 0) for _c, r in results)
